@@ -1040,3 +1040,111 @@ func c02ItemsOwnContainers(c *Ctx, r *Result) {
 	}
 	r.Floor("R02g", n, 1)
 }
+
+// ---- R13e: an object goes back to a shared pool at most once -------------------------------------
+
+// A sync.Pool shared by all parses is safe only while every object is owned by one parse at a time.
+// An object that is put back twice (an explicit release on an early return plus the deferred one) is
+// handed to two later parses at once: they then fill one another's look-ahead buffer. Typestate
+// over each function on the parse path: on no path is a releasing call (sync.Pool.Put, or a module
+// function that reaches it) made twice for the same value, counting deferred calls at the return.
+func c13PoolReleasedOnce(c *Ctx, r *Result, funcs []*ssa.Function) {
+	putters := map[*ssa.Function]bool{}
+	isPoolPut := func(in ssa.Instruction) bool {
+		return callName(in) == "sync.Pool.Put" || callName(in) == "(*sync.Pool).Put"
+	}
+	for changed := true; changed; {
+		changed = false
+		for _, fn := range c.ModFuncs() {
+			if putters[fn] {
+				continue
+			}
+			allInstrs(fn, func(in ssa.Instruction) {
+				ci, ok := in.(ssa.CallInstruction)
+				if !ok || putters[fn] {
+					return
+				}
+				if isPoolPut(in) {
+					putters[fn] = true
+					changed = true
+				} else if g := ci.Common().StaticCallee(); g != nil && putters[g] {
+					putters[fn] = true
+					changed = true
+				}
+			})
+		}
+	}
+	r.Extra["pool_releasing_functions"] = len(putters)
+	n := 0
+	for _, fn := range funcs {
+		var rel []ssa.Instruction
+		allInstrs(fn, func(in ssa.Instruction) {
+			ci, ok := in.(ssa.CallInstruction)
+			if !ok {
+				return
+			}
+			if isPoolPut(in) {
+				rel = append(rel, in)
+			} else if g := ci.Common().StaticCallee(); g != nil && putters[g] && g != fn {
+				rel = append(rel, in)
+			}
+		})
+		if len(rel) < 2 {
+			continue
+		}
+		key := c.FuncKey(fn)
+		isRel := map[ssa.Instruction]bool{}
+		for _, x := range rel {
+			isRel[x] = true
+		}
+		what := func(st *PState, in ssa.Instruction) string {
+			args := callArgs(in.(ssa.CallInstruction).Common())
+			if len(args) == 0 {
+				return "?"
+			}
+			a := args[0]
+			if isPoolPut(in) && len(args) > 1 {
+				a = args[1]
+			}
+			return st.canon(a).Name()
+		}
+		var bad ssa.Instruction
+		o := &PathOracle{}
+		o.Visit = func(st *PState, in ssa.Instruction) {
+			if !isRel[in] {
+				return
+			}
+			w := what(st, in)
+			if _, isDefer := in.(*ssa.Defer); isDefer {
+				st.Flags["deferred:"+w] = true
+				return
+			}
+			if st.Flags["released:"+w] && bad == nil {
+				bad = in
+			}
+			st.Flags["released:"+w] = true
+		}
+		o.AtReturn = func(st *PState, ret *ssa.Return) {
+			for f, on := range st.Flags {
+				if on && strings.HasPrefix(f, "released:") && st.Flags["deferred:"+strings.TrimPrefix(f, "released:")] && bad == nil {
+					bad = ret
+				}
+			}
+		}
+		if !ExplorePaths(fn, o) {
+			r.Undecide("R13e: path exploration of %s exceeded its bound", key)
+			continue
+		}
+		n++
+		site := key + "#pool-release"
+		if bad != nil {
+			pos := c.Pos(c.InstrPos(bad))
+			r.Instance("R13e", site, pos, "finding", "an object can be released to the shared pool twice on one path", true)
+			r.Report(Finding{Rule: "R13e", Site: site, Pos: pos,
+				Msg: key + ": on a path that ends here the same object is handed back to a sync.Pool twice (an explicit release and the deferred one): the pool then gives it to two later parses at once, which overwrite each other's look-ahead tokens — valid programs are rejected or parsed into a tree mixed with another program's tokens"})
+		} else {
+			r.Instance("R13e", site, c.Pos(fn.Pos()), "ok", "no path releases the same object twice", true)
+		}
+	}
+	r.Extra["pool_release_functions_examined"] = n
+}
